@@ -401,6 +401,35 @@ pub fn ep_case(rng: &mut Rng) -> RPos {
     };
     p.sq[k] = Some((us, Piece::King));
     let (kf, kr) = fr(k);
+    // a capturer pinned exactly along its capture diagonal: king, EP square, capturer and an enemy
+    // bishop/queen on one diagonal (either order) -- the capture stays on the pin line and is legal
+    if rng.chance(1, 5) {
+        let target_r = rel_rank(them, 3);
+        for dfc in [-1, 1] {
+            let cf = f + dfc;
+            if !on(cf, r4) || p.sq[idx(cf, r4)] != Some((us, Piece::Pawn)) {
+                continue;
+            }
+            // direction from capturer to the EP square
+            let (ddf, ddr) = (f - cf, target_r - r4);
+            let (n1, n2) = (rng.range(1, 5) as i32, rng.range(1, 5) as i32);
+            let beyond = (f + ddf * n1, target_r + ddr * n1);
+            let behind = (cf - ddf * n2, r4 - ddr * n2);
+            if on(beyond.0, beyond.1) && on(behind.0, behind.1) {
+                let (a, b) = (idx(beyond.0, beyond.1), idx(behind.0, behind.1));
+                if a != k && b != k && !reserved.contains(&a) && !reserved.contains(&b) && p.sq[a].is_none() && p.sq[b].is_none() {
+                    // move our king onto one end, an enemy slider onto the other
+                    p.sq[k] = None;
+                    let (ksq, ssq) = if rng.chance(1, 2) { (a, b) } else { (b, a) };
+                    p.sq[ksq] = Some((us, Piece::King));
+                    p.sq[ssq] = Some((them, if rng.chance(1, 3) { Piece::Queen } else { Piece::Bishop }));
+                    far_king(rng, &mut p, them, ksq);
+                    random_clocks(rng, &mut p, false);
+                    return p;
+                }
+            }
+        }
+    }
     // enemy sliders on lines through the king
     for _ in 0..rng.below(4) {
         let &(df, dr) = rng.pick(&KING_D);
@@ -476,18 +505,19 @@ pub fn castle_case(rng: &mut Rng) -> RPos {
     let them = other(us);
     p.stm = us;
     let br = rel_rank(us, 1);
-    let kf = rng.range(1, 6) as i32;
+    // any file, the corners included (a corner king can still hold one right)
+    let kf = if rng.chance(1, 6) { *rng.pick(&[0, 7]) } else { rng.range(1, 6) as i32 };
     let k = idx(kf, br);
     p.sq[k] = Some((us, Piece::King));
     // rooks
-    if rng.chance(4, 5) {
+    if kf < 7 && rng.chance(4, 5) {
         let rf = rng.range(kf as i64 + 1, 7) as i32;
         p.sq[idx(rf, br)] = Some((us, Piece::Rook));
         if rng.chance(9, 10) {
             p.rights[ci(us)][0] = Some(rf as u8);
         }
     }
-    if rng.chance(4, 5) {
+    if kf > 0 && rng.chance(4, 5) {
         let rf = rng.range(0, kf as i64 - 1) as i32;
         p.sq[idx(rf, br)] = Some((us, Piece::Rook));
         if rng.chance(9, 10) {
@@ -574,11 +604,11 @@ pub fn castle_case(rng: &mut Rng) -> RPos {
         // give the opponent a castling set-up of its own half of the time
         if rng.chance(1, 2) {
             let obr = rel_rank(them, 1);
-            let okf = rng.range(1, 6) as i32;
+            let okf = if rng.chance(1, 6) { *rng.pick(&[0, 7]) } else { rng.range(1, 6) as i32 };
             if p.sq[idx(okf, obr)].is_none() {
                 p.sq[idx(okf, obr)] = Some((them, Piece::King));
                 for (w, lo, hi) in [(0usize, okf + 1, 7), (1usize, 0, okf - 1)] {
-                    if rng.chance(2, 3) {
+                    if lo <= hi && rng.chance(2, 3) {
                         let rf = rng.range(lo as i64, hi as i64) as i32;
                         if p.sq[idx(rf, obr)].is_none() {
                             p.sq[idx(rf, obr)] = Some((them, Piece::Rook));
